@@ -27,7 +27,7 @@ SCHEMA = {
     "aten.lt": ["t", "ts"], "aten.clone": ["t"], "aten.copy_": ["t", "t"], "aten.div": ["ts", "ts"], "aten.mul": ["ts", "ts"],
     "aten.neg": ["t"], "aten.relu": ["t"], "aten._softmax": ["t", "a", "a"], "aten.expand": ["t"], "aten.permute": ["t"],
     "aten.select": ["t"], "aten.slice": ["t"], "aten.unsqueeze": ["t"], "aten.squeeze": ["t"], "aten.is_same_size": ["t", "t"],
-    "aten.bmm": ["t", "t"], "aten.mm": ["t", "t"], "aten.split": ["t"], "aten.transpose": ["t"], "aten.t": ["t"],
+    "aten.bmm": ["t", "t"], "aten.mm": ["t", "t"], "aten.split": ["t"], "aten.split_with_sizes": ["t"], "aten.squeeze": ["t"], "aten.transpose": ["t"], "aten.t": ["t"],
     "aten.view": ["t"], "aten._unsafe_view": ["t"], "aten.where": ["t", "ts", "ts"], "aten.reshape": ["t"],
     "aten.flatten": ["t"], "aten.narrow": ["t"], "aten.flip": ["t"], "aten.contiguous": ["t"], "aten.add": ["ts", "ts"],
     "aten.sub": ["ts", "ts"], "aten.abs": ["t"], "aten.gt": ["t", "ts"], "aten.le": ["t", "ts"], "aten.ge": ["t", "ts"],
